@@ -291,18 +291,24 @@ inductive ResumeAck (cfg : Cfg) (t : St) : Op → Prop
       (hsp : q.sp = true)
       (hsz : t.ver = 5 → q.size ≤ t.mpsSend) : ResumeAck cfg t (.send q)
 
-theorem prV3Connack_eq (c : C) (q : Pkt) (hst : c.s.status ≠ .connected) (hrc : q.rc = some 0)
-    (hsp : q.sp = true) :
+theorem prV3Connack_eq (c : C) (q : Pkt) (b : Bool) (hst : c.s.status ≠ .connected) (hrc : q.rc = some 0)
+    (hsp : q.sp = true)
+    (hb : resendCond ((fun c : C => { c with s := { c.s with status := .connected } }) c) = b) :
     prV3Connack c (.ok q) =
-      (fun c => c.push (.recv q)) (sendStored ((fun c : C => { c with s := { c.s with status := .connected } }) c)) := by
-  simp only [prV3Connack, hst, if_false, hrc, if_true, hsp]
+      (fun c => (rearmIf b c).push (.recv q))
+        (sendStored ((fun c : C => { c with s := { c.s with status := .connected } }) c)) := by
+  simp only [prV3Connack, hst, if_false, hrc, if_true, hsp, resendStored_eq_rearm]
+  rw [← hb]
 
-theorem prV5Connack_eq (c : C) (q : Pkt) (hst : c.s.status ≠ .connected) (hrc : q.rc = some 0)
-    (hsp : q.sp = true) :
+theorem prV5Connack_eq (c : C) (q : Pkt) (b : Bool) (hst : c.s.status ≠ .connected) (hrc : q.rc = some 0)
+    (hsp : q.sp = true)
+    (hb : resendCond ((fun c : C =>
+      propsFold connackRecvProp { c with s := { c.s with status := .connected } } q.props) c) = b) :
     prV5Connack c (.ok q) =
-      (fun c => c.push (.recv q)) (sendStored ((fun c : C =>
+      (fun c => (rearmIf b c).push (.recv q)) (sendStored ((fun c : C =>
         propsFold connackRecvProp { c with s := { c.s with status := .connected } } q.props) c)) := by
-  simp only [prV5Connack, hst, if_false, hrc, if_true, hsp]
+  simp only [prV5Connack, hst, if_false, hrc, if_true, hsp, resendStored_eq_rearm]
+  rw [← hb]
 
 theorem psV3Connack_eq (c : C) (q : Pkt) (hst : c.s.status = .connecting) (hrc : q.rc = some 0)
     (hsp : q.sp = true) :
@@ -361,16 +367,20 @@ theorem resumeAck_rel {cfg : Cfg} {t : St} {op : Op} (h : ResumeAck cfg t op) (X
     rcases hv with h4 | h5
     · have e4 : (t.ver = 4) = True := eq_true h4
       simp only [e4, if_true]
-      exact resume_wrap (cfg := cfg) (fun c => prV3Connack c (.ok q)) _ _ blind_setConnected (blind_push _)
-        ⟨cfg, { t with pb := pb }, []⟩ X (prV3Connack_eq _ q hstat hrc hsp) (prV3Connack_eq _ q hstat hrc hsp)
+      have hb := resendCond_ws (cfg := cfg) _ blind_setConnected ⟨cfg, { t with pb := pb }, []⟩ X hst w1 w2 hag
+      exact resume_wrap (cfg := cfg) (fun c => prV3Connack c (.ok q)) _ _ blind_setConnected
+        (Blind.comp (blind_push _) (blind_rearmIf _))
+        ⟨cfg, { t with pb := pb }, []⟩ X (prV3Connack_eq _ q _ hstat hrc hsp rfl) (prV3Connack_eq _ q _ hstat hrc hsp hb)
         hst w1 w2 hag
     · have e4 : (t.ver = 4) = False := eq_false (by omega)
       simp only [e4, if_false]
       have hb : Blind (fun c : C => propsFold connackRecvProp { c with s := { c.s with status := .connected } } q.props) :=
         Blind.comp (g := fun c => propsFold connackRecvProp c q.props)
           (propsFold_ws' q.props (fun e he c X => connackRecvProp_ws c X e.1 e.2 (hsei e he))) blind_setConnected
-      exact resume_wrap (cfg := cfg) (fun c => prV5Connack c (.ok q)) _ _ hb (blind_push _)
-        ⟨cfg, { t with pb := pb }, []⟩ X (prV5Connack_eq _ q hstat hrc hsp) (prV5Connack_eq _ q hstat hrc hsp)
+      have hb' := resendCond_ws (cfg := cfg) _ hb ⟨cfg, { t with pb := pb }, []⟩ X hst w1 w2 hag
+      exact resume_wrap (cfg := cfg) (fun c => prV5Connack c (.ok q)) _ _ hb
+        (Blind.comp (blind_push _) (blind_rearmIf _))
+        ⟨cfg, { t with pb := pb }, []⟩ X (prV5Connack_eq _ q _ hstat hrc hsp rfl) (prV5Connack_eq _ q _ hstat hrc hsp hb')
         hst w1 w2 hag
   | sent q hk hver hv hr hstat hrc hsp hsz =>
     have hrole : roleMaySend cfg.role q = true := by
